@@ -60,4 +60,26 @@ def rankOf (rank : List Nat) (l : Lock) : Nat := rank.getD l 0
 def ranked (edges : List (Nat × Nat)) (rank : List Nat) : Bool :=
   edges.all (fun e => rankOf rank e.1 < rankOf rank e.2)
 
+/-! ## Lock discipline (guarded fields)
+
+The extractor also emits, for every struct that owns a mutex, every syntactic access to one of its fields
+together with the guard relations that MUST hold at that point (`Generated.LockGraph.accesses`), and a
+specification of guarded fields (`guardSpec`). Fields, kinds and guards are small numbers there. -/
+
+/-- (field id, kind: 0 read / 1 write / 2 call on the field's value, base object still private, guards held) -/
+abbrev Access := Nat × Nat × Bool × List Nat
+/-- (field id, kind, guards of which one must be held) -/
+abbrev Spec := Nat × Nat × List Nat
+
+/-- `a` satisfies every specification entry that speaks about its field and kind -/
+def accessOk (sp : List Spec) (a : Access) : Bool :=
+  sp.all (fun s => !(s.1 == a.1 && s.2.1 == a.2.1) || a.2.2.1 || s.2.2.any (fun g => a.2.2.2.contains g))
+
+/-- the decidable check run on the generated table -/
+def guardedOk (as : List Access) (sp : List Spec) : Bool := as.all (accessOk sp)
+
+/-- translate the specification in words into ids (position in the generated name lists) -/
+def encodeSpec (fields guards : List String) (t : List (String × Nat × List String)) : List Spec :=
+  t.map (fun e => (fields.idxOf e.1, e.2.1, e.2.2.map guards.idxOf))
+
 end WebrtcVerif.LockOrder
